@@ -501,7 +501,12 @@ def r3_lazy_tool_reset(ctx, sym):
 
                     def fresh_obj(name_):
                         def make(*a, **k):
-                            return Obj('new:' + name_, __open__=True)
+                            # (model assumption: a constructor keeps its keyword arguments under their own names)
+                            o = Obj('new:' + name_, __open__=True, **{kk: vv for kk, vv in k.items()
+                                                                     if not kk.startswith('__')})
+                            # whatever is called on it (clear(), reset() ...) leaves it the same object
+                            o.attrs['__unknown_method__'] = lambda mname, *aa, **kk: None
+                            return o
                         make._fd_callable = True
                         return make
                     class_names = {q for (mn, q) in sym.classes if '.' not in q}
